@@ -183,7 +183,7 @@ def run_case(case):
                                         frac=round(float(bad.mean()), 2), **mech))
             else:
                 cosang = (Nj * g[judge]).sum(1)
-                off = cosang < 0.995
+                off = cosang < 0.9
                 if off.any():
                     i = int(np.where(off)[0][0])
                     res["viol"].append(viol("normal_direction", "%s.normal on %s: %d normals deviate from the twin's outward normal "
